@@ -72,6 +72,29 @@ def layoutRoot (t : STree F) (av : Size (AvailableSpace F)) : List (Layout F) :=
   | _ :: rest => RootModel.rootLayout t.style av r.1 :: rest
   | [] => []
 
+/-- the real cache model with a counter of `store`s: in `evalNodeWith` a `store` happens exactly once per evaluation of
+the node's body (a cache miss outside hidden run mode), which is what hook H3 records as `QueryKind::Miss` -/
+def countingCache : CacheImpl F (CacheModel.Cache F × Nat) where
+  empty := (CacheModel.Cache.new, 0)
+  get c i := (realCache (α := F)).get c.1 i
+  store c i o := ((realCache (α := F)).store c.1 i o, c.2 + 1)
+  clear c := ((realCache (α := F)).clear c.1, c.2)
+
+mutual
+def preorderCounts : NS F (CacheModel.Cache F × Nat) → List Nat
+  | .mk c _ kids => c.2 :: preorderCountsList kids
+def preorderCountsList : List (NS F (CacheModel.Cache F × Nat)) → List Nat
+  | [] => []
+  | k :: ks => preorderCounts k ++ preorderCountsList ks
+end
+
+/-- body evaluations per node (preorder) of one `compute_root_layout` over a freshly built tree: the model's prediction
+of the cost of a pass (C16's cost tie) -/
+def costRoot (t : STree F) (av : Size (AvailableSpace F)) : List Nat :=
+  let inp := RootModel.rootInput t.style av
+  let r := evalNode countingCache algs (STree.depth t + 1) t (NS.init countingCache t) inp
+  preorderCounts r.2
+
 def step (_ : Unit) (ws : List String) : Unit × String :=
   ((), match ws with
   | "eval" :: aw :: ah :: rest =>
@@ -83,6 +106,11 @@ def step (_ : Unit) (ws : List String) : Unit × String :=
     match parseAv aw, parseAv ah, pGTree 64 rest with
     | some aw, some ah, some (t, _) =>
       String.intercalate " | " ((layoutRoot t ⟨aw, ah⟩).map showLayout)
+    | _, _, _ => "bad-op"
+  | "evalgcost" :: aw :: ah :: rest =>
+    match parseAv aw, parseAv ah, pGTree 80 rest with
+    | some aw, some ah, some (t, _) =>
+      String.intercalate " " ((costRoot t ⟨aw, ah⟩).map toString)
     | _, _, _ => "bad-op"
   | _ => "bad-op")
 
